@@ -37,7 +37,7 @@ structure Lawful {σ} (E : Entropy σ) : Prop where
   genI32_range : ∀ s, -2147483648 ≤ (E.genI32 s).1 ∧ (E.genI32 s).1 < 2147483648
   genI64_range : ∀ s, -9223372036854775808 ≤ (E.genI64 s).1 ∧ (E.genI64 s).1 < 9223372036854775808
   genUnit_lt : ∀ s, (E.genUnit s).1 < 9007199254740992
-  genRange_in : ∀ s a b, a < b → a ≤ (E.genRange s a b).1 ∧ (E.genRange s a b).1 < b
+  genRange_in : ∀ s a b, a < b → b ≤ 2 ^ 64 → a ≤ (E.genRange s a b).1 ∧ (E.genRange s a b).1 < b
   genRange_degenerate : ∀ s a b, b ≤ a → (E.genRange s a b).1 = a
   genBytes_len : ∀ s n, (E.genBytes s n).1.length = n
 
